@@ -52,6 +52,10 @@ Case generate() {
   // bit r: round r is abandoned after its generated steps (a loop left through parallel_break: the threads
   // simply stop calling the detector); the next round re-arms the same detector object
   c[F_BREAK]  = c[F_ROUNDS] >= 2 && *uni(0, 3) == 0 ? *uni(1, 4) : 0;
+  if (c[F_BREAK]) // the round after an abandoned one: more threads, chains to the next thread
+    for (int r = 1; r < MAXROUNDS; ++r)
+      if ((c[F_BREAK] >> (r - 1)) & 1)
+        c[F_N0 + r] = *gen::element<int>(3, 4, 4, 5);
   int len     = *uni(0, 60) * (int)c[F_ROUNDS];
   for (int i = 0; i < len; ++i)
     c.f.push_back(*uni(0, 8) + 8 * *gen::weightedElement<int>({{4, 0}, {3, 1}, {2, 2}, {1, 4}, {1, 7}}));
